@@ -25,6 +25,7 @@ import (
 	"github.com/yandex/pandora/core/coreutil"
 	"github.com/yandex/pandora/core/engine"
 	"github.com/yandex/pandora/core/register"
+	"github.com/yandex/pandora/lib/netutil"
 	"go.uber.org/zap"
 	"go.uber.org/zap/zapcore"
 	"golang.org/x/net/http2"
@@ -463,6 +464,7 @@ func runHTTPPool(r *R, sp httpPoolSpec, netSetup func(n *simnet.Net), prepare fu
 			Pools []engine.InstancePoolConfig `config:"pools"`
 		}
 		ensureImport()
+		netutil.DefaultDNSCache = &netutil.SimpleDNSCache{} // process-wide in pandora: a run must not see the names of the runs before
 		if err := config.DecodeAndValidate(map[string]interface{}{"pools": []interface{}{deepCopy(pool)}}, &conf); err != nil {
 			res.DecodeErr = err
 			return
